@@ -154,6 +154,22 @@ def decide_literals(t, depth=0):
                 if (lab == "then") == dv:
                     return v
         return t
+    if t[0] == "returns" and len(t) == 2:
+        # early exits whose conditions are decided: the first one taken is the value
+        keep = []
+        for conds, val in t[1]:
+            if conds == ("fallthrough",):
+                if not keep:
+                    return val
+                keep.append((conds, val))
+                break
+            ds = [sym.decide_bool(c_[0]) if not (isinstance(c_[0], tuple) and c_[0][:1] == ("arm",)) else None for c_ in conds]
+            if any(d is not None and d is not c_[1] for d, c_ in zip(ds, conds)):
+                continue          # an exit that is not taken
+            if all(d is not None for d in ds) and not keep:
+                return val
+            keep.append((conds, val))
+        return ("returns", tuple(keep))
     if t[0] == "proj":
         return norm(t)
     if t[0] == "try" and len(t) == 2 and isinstance(t[1], tuple) and t[1][:2] in (("ctor", "Option::Some"), ("ctor", "Result::Ok")) and dict(t[1][2]).get("0") is not None:
